@@ -175,6 +175,9 @@ func tagsOf(evs []*event) string {
 	seen := map[string]bool{}
 	last := map[string]uint64{}
 	ck := map[string]string{}
+	low64 := map[string]string{} // kind+low 64 bits of a seed -> seed
+	mask64 := new(big.Int).SetUint64(^uint64(0))
+	congruent := false
 	text := map[string]byte{} // key text of seed / wallet events -> kinds seen (bit 1 = s, bit 2 = w)
 	dup, collide, beacon, wallet, result, cross, expire, agedup, adv := false, false, false, false, false, false, false, false, false
 	var now uint64
@@ -194,6 +197,13 @@ func tagsOf(evs []*event) string {
 		}
 		seen[e.canon] = true
 		last[e.canon] = now
+		if e.kind == 's' || e.kind == 'b' {
+			k := string(e.kind) + new(big.Int).And(e.seed, mask64).Text(16)
+			if o, ok := low64[k]; ok && o != e.seed.Text(16) {
+				congruent = true
+			}
+			low64[k] = e.seed.Text(16)
+		}
 		switch e.kind {
 		case 's':
 			k := e.seed.Text(16)
@@ -220,7 +230,7 @@ func tagsOf(evs []*event) string {
 		b bool
 		s string
 	}{{dup, "dup"}, {collide, "collide"}, {beacon, "beacon"}, {wallet, "wallet"}, {result, "result"},
-		{cross, "cross"}, {adv, "advance"}, {agedup, "agedup"}, {expire, "expire"}} {
+		{cross, "cross"}, {congruent, "congruent"}, {adv, "advance"}, {agedup, "agedup"}, {expire, "expire"}} {
 		if x.b {
 			t = append(t, x.s)
 		}
@@ -386,7 +396,7 @@ func partner(r *hx.Rng, seed, hash, block string) (string, bool) {
 func genEvents(r *hx.Rng, n int, allowDup bool) []string {
 	var evs []string
 	for len(evs) < n {
-		switch r.Intn(10) {
+		switch r.Intn(11) {
 		case 0, 1:
 			evs = append(evs, "s."+randSeed(r))
 		case 2:
@@ -403,6 +413,26 @@ func genEvents(r *hx.Rng, n int, allowDup bool) []string {
 				if p, ok := partner(r, seed, hash, block); ok {
 					evs = append(evs, p)
 				}
+			}
+		case 9: // numeric-width neighbours of an earlier seed: congruent modulo 2^32 / 2^64 / 2^128
+			if len(evs) > 0 {
+				e := evs[r.Intn(len(evs))]
+				p := strings.Split(e, ".")
+				if p[0] == "s" || p[0] == "b" || p[0] == "r" {
+					v, _ := new(big.Int).SetString(p[1], 16)
+					w := hx.Pick(r, []uint{32, 64, 64, 64, 128})
+					k := big.NewInt(int64(r.Range(1, 3)))
+					v2 := new(big.Int).Add(v, new(big.Int).Lsh(k, w))
+					if r.Chance(1, 3) && v.BitLen() > int(w) { // or the truncation itself
+						v2 = new(big.Int).And(v, new(big.Int).Sub(new(big.Int).Lsh(big.NewInt(1), w), big.NewInt(1)))
+					}
+					p[1] = v2.Text(16)
+					evs = append(evs, strings.Join(p, "."))
+					continue
+				}
+			}
+			if len(evs) > 0 && allowDup {
+				evs = append(evs, evs[r.Intn(len(evs))])
 			}
 		case 8: // same seed/hash, other block; same seed in another cache
 			if len(evs) > 0 {
